@@ -194,7 +194,7 @@ def main(tier):
         chk.cov["evaluations"] = total
         chk.cov["distinct_nontrivial"] = nontriv
         chk.cov["exhaustive"] = True
-        chk.cov["rule"] = ("all tokens of <=4 modifier chars x 8 bases alone, all sequences of <=%d tokens of an 11-token "
+        chk.cov["rule"] = ("all tokens of <=4 modifier chars x 9 bases alone, all sequences of <=%d tokens of a 13-token "
                            "alphabet, random whitespace; non-trivial = built and both accepts and rejects some probe" % multilen)
         chk.part("specs", total=total, built=legal, nonstring=len(NONSTR))
         chk.assumptions += ["an empty base without '_' and 'name=...' have no documented meaning: build may succeed or "
